@@ -121,7 +121,17 @@ impl<'tcx> Cx<'tcx> {
                                             inner.push(self.constant(owner, c2));
                                         }
                                     }
-                                    Rvalue::Aggregate(_, ops) => {
+                                    Rvalue::Aggregate(kind, ops) => {
+                                        if let mir::AggregateKind::Adt(did, vi, _, _, _) = &**kind {
+                                            if ops.is_empty() {
+                                                let adt = self.tcx.adt_def(*did);
+                                                inner.push(format!(
+                                                    "{{\"k\":\"const\",\"ty\":{},\"variant\":{}}}",
+                                                    esc(&self.tcx.def_path_str(*did)),
+                                                    esc(&adt.variant(*vi).name.to_string())
+                                                ));
+                                            }
+                                        }
                                         for o in ops.iter() {
                                             if let Operand::Constant(c2) = o {
                                                 if !matches!(c2.const_, mir::Const::Unevaluated(uu, _) if uu.promoted.is_some()) {
